@@ -40,10 +40,18 @@ func coYield(L *LState) int {
 }
 
 func coResume(L *LState) int {
+	return resumeAux(L, false)
+}
+
+// resumeAux resumes the thread at stack index 1. wrapped says who is asking:
+// the function made by coroutine.wrap (errors are raised, the values arrive
+// without a status flag) or coroutine.resume (errors and values arrive behind a
+// status flag) - whichever way the coroutine was created.
+func resumeAux(L *LState, wrapped bool) int {
 	th := L.CheckThread(1)
 	if L.G.CurrentThread == th {
 		msg := "can not resume a running thread"
-		if th.wrapped {
+		if wrapped {
 			L.RaiseError(msg)
 			return 0
 		}
@@ -53,7 +61,7 @@ func coResume(L *LState) int {
 	}
 	if th.Dead {
 		msg := "can not resume a dead thread"
-		if th.wrapped {
+		if wrapped {
 			L.RaiseError(msg)
 			return 0
 		}
@@ -65,7 +73,7 @@ func coResume(L *LState) int {
 		// th is one of the resumers of the running coroutine: resuming it
 		// would re-enter a thread that is in the middle of a resume
 		msg := "can not resume a non-suspended thread"
-		if th.wrapped {
+		if wrapped {
 			L.RaiseError(msg)
 			return 0
 		}
@@ -73,6 +81,7 @@ func coResume(L *LState) int {
 		L.Push(LString(msg))
 		return 2
 	}
+	th.wrapped = wrapped
 	th.Parent = L
 	L.G.CurrentThread = th
 	nargs := L.GetTop() - 1
@@ -126,7 +135,7 @@ func coStatus(L *LState) int {
 
 func wrapaux(L *LState) int {
 	L.Insert(L.ToThread(UpvalueIndex(1)), 1)
-	return coResume(L)
+	return resumeAux(L, true)
 }
 
 func coWrap(L *LState) int {
